@@ -3,6 +3,8 @@ package main
 import (
 	_ "embed"
 	"fmt"
+	"go/constant"
+	"go/token"
 	"os"
 	"reflect"
 	"sort"
@@ -799,6 +801,13 @@ func threadContinuation(F *ssa.Function, K *ssa.BasicBlock) {
 		case *ssa.BinOp:
 			if !inK[x] || (x.Op.String() != "==" && x.Op.String() != "!=") {
 				return false, false
+			}
+			// two constants (a sentinel such as -1 or "" returned by the helper and tested by the caller)
+			if cx, ok := resolve(x.X, i, 0).(*ssa.Const); ok && cx.Value != nil {
+				if cy, ok := resolve(x.Y, i, 0).(*ssa.Const); ok && cy.Value != nil && cx.Value.Kind() == cy.Value.Kind() {
+					eq := constant.Compare(cx.Value, token.EQL, cy.Value)
+					return true, eq == (x.Op.String() == "==")
+				}
 			}
 			var other ssa.Value
 			switch {
